@@ -391,6 +391,22 @@ func c12Run(c *core.Ctx) {
 				}
 			}
 		}
+		// non-null schemes: the scheme output is opaque octets — every value of the last and of the first octet
+		// (a trailing F nibble is data, not BCD filler), several lengths
+		for _, scheme := range []uint8{1, 2, 0x0F} {
+			for _, l := range []int{1, 2, 33, 48} {
+				for v := 0; v < 256; v++ {
+					for _, fill := range []byte{0x00, 0xFF, 0x5A} {
+						out := bytes.Repeat([]byte{fill}, l)
+						out[l-1] = byte(v)
+						c12SuciExec(c, c12Suci{Mcc: "208", Mnc: "93", Routing: "12", Scheme: scheme, HnKey: 1, Output: hex.EncodeToString(out)})
+						out[l-1], out[0] = fill, byte(v)
+						c12SuciExec(c, c12Suci{Mcc: "310", Mnc: "410", Routing: "0", Scheme: scheme, HnKey: 255, Output: hex.EncodeToString(out)})
+						n += 2
+					}
+				}
+			}
+		}
 		for l := 1; l <= 40; l += 3 {
 			for _, f := range []byte{0x00, 0x61, 0xFF} {
 				c12SuciExec(c, c12Suci{Nai: hex.EncodeToString(bytes.Repeat([]byte{f}, l))})
